@@ -37,7 +37,7 @@ Definition obs_ok (f t s : Z) (o : value) : bool :=
 
 (* independent reading of a range string: d1-d2, digits only, at least one number *)
 Definition str_parts (str : bytes) : option (option Z * option Z) :=
-  match match_range_re (trimmed str) with
+  match match_range_re (qs_trim str) with
   | Some (d1, d2) =>
       match d1, d2 with
       | [], [] => None
